@@ -71,6 +71,8 @@ def case_st(draw):
                 arg = draw(st.integers(0, 7))
                 if encoding == "FM":
                     arg &= 6          # the reader samples FM at fixed odd raw positions: even counts only
+                # the skipped bits are "don't care": all 0, all 1 (then the byte looks like an opcode), or drawn
+                arg |= draw(st.sampled_from([0, 0x7F, 0x7F, draw(st.integers(0, 127))])) << 3
             pos = draw(st.one_of(st.integers(0, 3000), st.sampled_from([0, 1, 254, 255, 256, 257, 511, 512, 767, 768])))
             ops.append([pos, k, arg, draw(st.integers(0, 2))])
     tb = None
